@@ -1,0 +1,15 @@
+//go:build verif
+
+package fasthttp
+
+// VerifHook receives events emitted at linearization points when the package
+// is built with -tags verif (used by external conformance checking only).
+// It must be set before the instrumented objects are used and is never set
+// in normal builds, where vhook is an empty inlined function.
+var VerifHook func(ev string, o1, o2 any, a, b int)
+
+func vhook(ev string, o1, o2 any, a, b int) {
+	if h := VerifHook; h != nil {
+		h(ev, o1, o2, a, b)
+	}
+}
